@@ -50,7 +50,8 @@ func verifC05(nrec int, loader bool) {
 	nonce := vf.Bytes("nonce", 40)
 	nsig, nkey := vfSigChoice("noncesig", nonce)
 	reqKey := vf.Int("reqkey", 0, 3)
-	req := &types.GenerateServerCertificatesRequest{CertificatePublicKeyPkix: vf.Pkix(reqKey), Nonce: nonce, NonceSignature: nsig}
+	// the common name is a peer-controlled field on the authentication path: arbitrary, possibly empty
+	req := &types.GenerateServerCertificatesRequest{CertificatePublicKeyPkix: vf.Pkix(reqKey), Nonce: nonce, NonceSignature: nsig, CommonName: vf.String("common-name", 12)}
 	var state []byte
 	stateVal := vf.String("state-value", 8)
 	skey := -1
